@@ -31,6 +31,9 @@ pub enum Kind {
     F64b,
     /// the value type with other integer and float widths: a second instantiation of every generic item
     Val64,
+    /// one of 24 small generated operator tables over f64 (a process that uses MANY tables:
+    /// anything with a fixed capacity per operator table overflows)
+    Gen(u8),
 }
 pub const ALL_KINDS: [Kind; 9] = [
     Kind::F64,
@@ -44,8 +47,45 @@ pub const ALL_KINDS: [Kind; 9] = [
     Kind::Val64,
 ];
 
+pub const N_GEN: u8 = 24;
+
 pub fn kind_from_name(k: &str) -> Option<Kind> {
     ALL_KINDS.iter().copied().find(|x| format!("{x:?}") == k)
+}
+
+const GEN_UNARY: [&str; 24] = [
+    "ga", "gb", "gc", "gd", "ge", "gf", "gg", "gh", "gi", "gj", "gk", "gl", "gm", "gn", "go", "gp", "gq", "gr", "gs", "gt",
+    "gu", "gv", "gw", "gx",
+];
+const GEN_CONST: [&str; 24] = [
+    "KA", "KB", "KC", "KD", "KE", "KF", "KG", "KH", "KI", "KJ", "KK", "KL", "KM", "KN", "KO", "KP", "KQ", "KR", "KS", "KT",
+    "KU", "KV", "KW", "KX",
+];
+
+/// Table number N: `+`, `*`, `-` (binary and unary), one unary function and one constant whose
+/// names and meanings depend on N, and priorities that alternate with N.
+#[derive(Clone, Debug, PartialEq)]
+pub struct GenOps<const N: usize>;
+impl<const N: usize> MakeOperators<f64> for GenOps<N> {
+    fn make<'a>() -> Vec<Operator<'a, f64>> {
+        let (p_add, p_mul) = if N % 2 == 0 { (1, 2) } else { (2, 1) };
+        vec![
+            Operator::make_bin_unary("+", BinOp { apply: |a, b| a + b, prio: p_add, is_commutative: true }, |a| a),
+            Operator::make_bin("*", BinOp { apply: |a, b| a * b, prio: p_mul, is_commutative: true }),
+            Operator::make_bin_unary("-", BinOp { apply: |a, b| a - b, prio: p_add, is_commutative: false }, |a: f64| -a),
+            Operator::make_unary(GEN_UNARY[N % 24], |a: f64| a + N as f64),
+            Operator::make_constant(GEN_CONST[N % 24], N as f64 + 0.5),
+        ]
+    }
+}
+pub struct KGen<const N: usize>;
+impl<const N: usize> KindSpec for KGen<N> {
+    type T = f64;
+    type OF = GenOps<N>;
+    type LM = NumberMatcher;
+    const UNARY: &'static [&'static str] = &["-", "+"];
+    const BINARY: &'static [&'static str] = &["+", "*", "-"];
+    const SUBS: &'static [&'static str] = &["2*q", "q-r", "1.5"];
 }
 
 #[derive(Clone, Copy, Debug, Serialize, Deserialize, PartialEq, Eq, Hash)]
@@ -951,6 +991,17 @@ pub fn make_handle(kind: Kind, form: Form, text: &str, compile: bool) -> Result<
         Kind::Sim => make_k::<KSim>(form, text, compile),
         Kind::Sim2 => make_k::<KSim2>(form, text, compile),
         Kind::Sim3 => make_k::<KSim3>(form, text, compile),
+        Kind::Gen(n) => {
+            macro_rules! gen_dispatch {
+                ($($i:literal),*) => {
+                    match n % N_GEN {
+                        $($i => make_k::<KGen<$i>>(form, text, compile),)*
+                        _ => unreachable!(),
+                    }
+                };
+            }
+            gen_dispatch!(0, 1, 2, 3, 4, 5, 6, 7, 8, 9, 10, 11, 12, 13, 14, 15, 16, 17, 18, 19, 20, 21, 22, 23)
+        }
     }
 }
 
